@@ -30,6 +30,8 @@ REQUIRED = [
     'EdbVerif.C06.bounds_roundtrip', 'EdbVerif.C06.cartesian_sound', 'EdbVerif.C06.union_sound',
     'EdbVerif.C06.max_sound', 'EdbVerif.C06.coalesce_sound', 'EdbVerif.C06.min_sound',
     'EdbVerif.C06.filter_sound', 'EdbVerif.C06.for_sound', 'EdbVerif.C06.stdCall_sound',
+    'EdbVerif.C06.limit_one_sound', 'EdbVerif.C06.limit_const_sound', 'EdbVerif.C06.zero_lower_sound',
+    'EdbVerif.C06.limit_offset_commute', 'EdbVerif.C06.offset_limit_sound',
     'EdbVerif.C06.C06_card_partial', 'EdbVerif.C06.C06_mult_partial',
     'EdbVerif.C06.C06_card_counterexample_dependent_rhs',
     'EdbVerif.C06.C06_card_counterexample_link_taken_as_id',
@@ -414,6 +416,69 @@ def level2(ctx, witnesses, load_case, case_json, lines, expect):
                       'case': case_json(sch, db, t) if w.get('term') is not None else None,
                       'db': case_json(sch, db, ('empty',))['db'], 'comment': w.get('comment'), 'level': 2})
 
+    # -- every FILTER x OFFSET x LIMIT combination in one SELECT (top level, operand, shape element)
+    from edb.ir import ast as irast
+
+    def shape_card(ir, name):
+        st = ir.expr
+        while isinstance(st, irast.Set) and not st.shape and isinstance(st.expr, irast.SelectStmt):
+            st = st.expr.result
+        for el, _op in getattr(st, 'shape', ()):
+            if el.expr.ptrref.shortname.name == name:
+                return el.expr.ptrref.out_cardinality.name
+        return None
+
+    csch = dict(L2.COMBO_SCHEMA, fns=[dict(f) for f in M.STD_FNS])
+    crs = schema(L2.sdl_of(csch))
+    ctoy = M.Toy(csch, L2.COMBO_DB)
+    out['combos'] = 0
+    out['combo_shape_elements'] = 0
+    for c in L2.stmt_combos():
+        q, t = c['text'], c['term']
+        out['combos'] += 1
+        sl, tl = M.schema_line(csch), M.term_line(t)
+        if c['pos'] == 'shape':
+            try:
+                real = shape_card(env.compile_to_ir(crs, q), 'z')
+            except errors.QueryError:
+                real = 'reject'
+            out['combo_shape_elements'] += 1
+            lines.append(f'infer {sl}|{tl}')
+            expect.append(('shape2', real, (q, csch, L2.COMBO_DB, t)))
+            sizes = None
+            try:
+                sizes = [len(o.shape['z']) for o in T.toplevel_query(T.parse(q), ctoy.db)]
+            except Exception:
+                out['toy_skipped'] += 1
+            if sizes is not None and real not in (None, 'reject'):
+                out['oracle_checks'] += 1
+                for n in sizes:
+                    if not gamma(real, n):
+                        out['oracle_failures'] += 1
+                        ctx.fail(f"oracle2:card:combo:{c['name']}",
+                                 f'shape element reported {real} but has {n} element(s) '
+                                 '(real compiler on EdgeQL text; reference: toy_eval_model)',
+                                 {'edgeql': q, 'sdl': L2.sdl_of(csch), 'compiler': real, 'sizes': sizes,
+                                  'case': case_json(csch, L2.COMBO_DB, t), 'level': 2})
+                        break
+            continue
+        real = compile_(crs, q)
+        vals = toy_text(ctoy, q) if ' ' in real else None
+        if vals is None and ' ' in real:
+            out['toy_skipped'] += 1
+        lines.append(f'infer {sl}|{tl}')
+        expect.append(('infer2', real, (q, csch, L2.COMBO_DB, t)))
+        lines.append(f'eval {sl}|{M.db_line(L2.COMBO_DB)}|{tl}')
+        expect.append(('eval2', None if vals is None else (' '.join(vals) or '-'), (q, csch, L2.COMBO_DB, t)))
+        if vals is not None:
+            out['oracle_checks'] += 1
+            for kind, what in oracle_term(real + ' 0', vals):
+                out['oracle_failures'] += 1
+                ctx.fail(f"oracle2:{kind}:combo:{c['name']}",
+                         what + ' (real compiler on EdgeQL text; reference: toy_eval_model)',
+                         {'edgeql': q, 'sdl': L2.sdl_of(csch), 'compiler': real, 'result': vals,
+                          'case': case_json(csch, L2.COMBO_DB, t), 'level': 2})
+
     # -- random well-typed queries
     rng = ctx.rng
     n_sch, per = ctx.budget(3, 40), ctx.budget(80, 250)
@@ -556,9 +621,16 @@ def run(ctx: core.Ctx):
         for w in witnesses:
             if w.get('term') is not None:
                 cases.append(('witness:' + w['name'],) + load_case(w))
+        # every FILTER x OFFSET x LIMIT combination in one SELECT, over sources of each cardinality
+        from lib import c06_level2 as L2
+        combo_sch = dict(L2.COMBO_SCHEMA, fns=[dict(f) for f in M.STD_FNS])
+        for c in L2.stmt_combos():
+            if c['pos'] != 'shape':
+                cases.append(('combo:' + c['name'], combo_sch, L2.COMBO_DB, c['term']))
+        n_fixed = len(cases)
         rng = ctx.rng
         n_terms = ctx.budget(1500, 40000)
-        while len(cases) < n_terms + len(witnesses):
+        while len(cases) < n_terms + n_fixed:
             sch = M.gen_schema(rng, ntypes=rng.choice([1, 2, 2, 3]), nptrs=rng.randint(3, 7))
             for _ in range(4):
                 toy_safe = rng.random() < 0.7
@@ -578,15 +650,15 @@ def run(ctx: core.Ctx):
                                                'ptrs': {f'{p}:{i}': v for (p, i), v in db['ptrs'].items()}},
                 'term': t}
 
-    def real_infer(sch, t):
+    def real_infer(sch, t, merge=True):
         try:
-            return M.RealIR(sch).infer(t)
+            return M.RealIR(sch, merge=merge).infer(t)
         except Exception as e:         # an unexpected exception of the real code is a result, not infra
             return f'EXC:{type(e).__name__}'
 
-    def toy_eval(sch, db, t):
+    def toy_eval(sch, db, t, merge=True):
         try:
-            return M.Toy(sch, db).run(t), None
+            return M.Toy(sch, db, merge=merge).run(t), None
         except AssertionError:
             return None, 'toy-assert'          # LIMIT / OFFSET {} is outside the toy model
         except Exception as e:
@@ -597,7 +669,10 @@ def run(ctx: core.Ctx):
     n_infer = n_eval = 0
     recs = []
     for (stream, sch, db, t) in cases:
-        real = real_infer(sch, t)
+        # a chain limit(offset(filter(a))) is ONE SelectStmt (always for the fixed streams, for half of the
+        # random terms) or nested SelectStmts; the model must agree with both
+        merge = stream != 'rand' or len(M.term_line(t)) % 2 == 0
+        real = real_infer(sch, t, merge)
         sl = M.schema_line(sch)
         tl = M.term_line(t)
         lines.append(f'infer {sl}|{tl}')
@@ -612,7 +687,7 @@ def run(ctx: core.Ctx):
             hist_card[real] = hist_card.get(real, 0) + 1
         vals = None
         if db is not None and ' ' in real:
-            vals, why = toy_eval(sch, db, t)
+            vals, why = toy_eval(sch, db, t, merge)
             if why:
                 toy_skips[why] = toy_skips.get(why, 0) + 1
             lines.append(f'eval {sl}|{M.db_line(db)}|{tl}')
@@ -648,7 +723,7 @@ def run(ctx: core.Ctx):
         raise core.Infra(f'driver returned {len(model)} lines for {len(lines)}')
 
     # ---- compare
-    dis = {'comb': 0, 'infer': 0, 'eval': 0, 'infer2': 0, 'eval2': 0}
+    dis = {'comb': 0, 'infer': 0, 'eval': 0, 'infer2': 0, 'eval2': 0, 'shape2': 0}
     n_eval_cmp = 0
     model_eval = {}
     for line, (stream, real, payload), mout in zip(lines, expect, model or []):
@@ -659,6 +734,10 @@ def run(ctx: core.Ctx):
             n_eval_cmp += 1
         if stream == 'infer2':
             mout = ' '.join(mout.split(' ')[:2]) if ' ' in mout else mout
+        if stream == 'shape2':
+            mout = mout.split(' ')[0]
+            if real is None:
+                continue
         if stream == 'eval2' and real is None:
             continue
         if real != mout:
@@ -667,14 +746,16 @@ def run(ctx: core.Ctx):
                     'infer': 'Lean inferCard/inferMult and the real inference disagree',
                     'eval': 'Lean eval and toy_eval_model disagree',
                     'infer2': 'Lean inferCard/inferMult and the real compiler (EdgeQL text) disagree',
+                    'shape2': 'Lean inferCard and the cardinality the real compiler gives a computed shape element disagree',
                     'eval2': 'Lean eval and toy_eval_model (EdgeQL text) disagree'}[stream]
             detail = {'line': line, 'real': real, 'model': mout,
                       'stream': {'comb': 'cardinality.py combinators vs Gen/Card.lean',
                                  'infer': 'infer_cardinality/infer_multiplicity on hand-built IR vs Model/MiniQL.lean',
                                  'eval': 'toy_eval_model vs MiniQL.eval',
                                  'infer2': 'compile_ast_to_ir(text).cardinality/multiplicity vs Model/MiniQL.lean',
+                                 'shape2': 'shape element ptrref.out_cardinality vs Model/MiniQL.lean inferCard',
                                  'eval2': 'toy_eval_model(text) vs MiniQL.eval'}[stream]}
-            if stream in ('infer2', 'eval2'):
+            if stream in ('infer2', 'eval2', 'shape2'):
                 detail['edgeql'] = payload[0]
                 detail['case'] = case_json(*payload[1:])
             elif stream != 'comb':
@@ -717,6 +798,8 @@ def run(ctx: core.Ctx):
                 w = next(x for x in witnesses if 'witness:' + x['name'] == stream)
                 cls = w.get('class', cls)
             key = finding_key(kind, cls) if cls else f'oracle:{kind}:unclassified:{M.term_line(case[2])}'
+            if not cls and stream.startswith('combo:'):
+                key = f'oracle:{kind}:{stream}'
             viol_classes[key] = viol_classes.get(key, 0) + 1
             r2 = real_infer(case[0], case[2])
             v2, _ = toy_eval(*case)
